@@ -107,7 +107,7 @@ REQS = [
     dict(method="GET", target=b"/ten", headers=[HOSTH], version=b"1.0", framing="none", body=[]),
     dict(method="GET", target=b"/ka10", headers=[HOSTH, (b"Connection", b"keep-alive")], version=b"1.0", framing="none", body=[]),
 ]
-APPS = ["read-then-answer", "answer-before-reading", "never-read-body", "start-early-finish-late"]
+APPS = ["read-then-answer", "answer-before-reading", "never-read-body", "start-early-finish-late", "answer-then-linger"]
 
 
 class PipeApp:
@@ -115,6 +115,13 @@ class PipeApp:
         self.variant = variant
         self.log = log
         self.instances = []
+        self.ctx = None  # set by the harness once the connection exists
+        self.lingerers = []
+
+    async def release(self) -> None:
+        evs, self.lingerers = self.lingerers, []
+        for ev, back in evs:
+            await ev.set()
 
     async def __call__(self, scope, receive, send, sync_spawn=None, call_soon=None):
         idx = len(self.instances)
@@ -138,7 +145,20 @@ class PipeApp:
                 if not m.get("more_body"):
                     return
 
-        if self.variant == "start-early-finish-late":
+        if self.variant == "answer-then-linger":
+            # clean-up after the response: the instance returns only once its successor is under way (or the session ends)
+            if self.lingerers:
+                evs, self.lingerers = self.lingerers, []
+                for ev, back in evs:
+                    await ev.set()
+                    await back.wait()  # let the predecessor return right now, while this request is in progress
+            await read_all()
+            await answer()
+            ev, back = self.ctx.event_class(), self.ctx.event_class()
+            self.lingerers.append((ev, back))
+            await ev.wait()
+            await back.set()
+        elif self.variant == "start-early-finish-late":
             # streaming/echo style: the response head goes out first, the rest after the request body was read
             await send({"type": "http.response.start", "status": 200, "headers": [(b"content-length", str(len(body)).encode())]})
             await read_all()
@@ -172,13 +192,13 @@ CUTMAX, CUTMUL = (10, 6) if QUICK else (60, 1)
 
 @harness(
     "C06",
-    dom={"n": (1, 3), "r0": (0, 5), "r1": (0, 5), "r2": (0, 5), "seg": (0, 2), "cut": (0, CUTMAX), "ai": (0, 3), "kmax": (0 if not QUICK else 1, 3)},
+    dom={"n": (1, 3), "r0": (0, 5), "r1": (0, 5), "r2": (0, 5), "seg": (0, 2), "cut": (0, CUTMAX), "ai": (0, 4), "kmax": (0 if not QUICK else 1, 3)},
     split={"r0": "each", "ai": "each"},
     thorough_split={"r0": "each", "ai": "each", "r1": "each"},
     witnesses=[{"n": 3, "r0": 0, "r1": 1, "r2": 2, "seg": 0, "cut": 0, "ai": 0, "kmax": 3}, {"n": 2, "r0": 1, "r1": 3, "r2": 0, "seg": 1, "cut": 5, "ai": 1, "kmax": 1}],
     budget={"quick": 240, "thorough": 900},
     per_path=120,
-    bounds="pipelines of 1..3 requests drawn from 6 templates (body/no body, Connection: close|keep-alive|absent, HTTP/1.0|1.1) x segmentation {all in one read, one cut at any of the first 60 offsets (quick: every 6th), one byte per read for the first 40 bytes} x 4 application variants (read then answer, answer before reading, never read the body, response head first and the rest after reading) x keep_alive_max_requests in {1,2,1000} (thorough also 3)",
+    bounds="pipelines of 1..3 requests drawn from 6 templates (body/no body, Connection: close|keep-alive|absent, HTTP/1.0|1.1) x segmentation {all in one read, one cut at any of the first 60 offsets (quick: every 6th), one byte per read for the first 40 bytes} x 5 application variants (read then answer, answer before reading, never read the body, response head first and the rest after reading, answer and return only while the next request is in progress) x keep_alive_max_requests in {1,2,1000} (thorough also 3)",
     encodes=["hypercorn/protocol/h11.py::H11Protocol._handle_events", "hypercorn/protocol/h11.py::H11Protocol._maybe_recycle", "hypercorn/protocol/h11.py::H11Protocol.stream_send",
              "hypercorn/protocol/h11.py::H11Protocol._create_stream", "hypercorn/protocol/http_stream.py::HTTPStream.app_send"],
     stubs=["tier B runtime"],
@@ -189,13 +209,19 @@ def h1_pipeline(n: int, r0: int, r1: int, r2: int, seg: int, cut: int, ai: int, 
     post: _
     """
     enter()
+    ok, vec = pipeline(n, r0, r1, r2, seg, cut, ai, kmax)
+    return done(ok, **vec)
+
+
+def pipeline(n, r0, r1, r2, seg, cut, ai, kmax):
+    """The pipeline rig and its reference (no contract of its own: C18 drives it too); returns (ok, vector)."""
     n = conc(n, 1, 3)
     seg = conc(seg, 0, 2)
     if QUICK and n == 3 and seg != 0:
-        return done(True, skipped="quick tier: three-request pipelines arrive in one read")
+        return True, {"skipped": "quick tier: three-request pipelines arrive in one read"}
     rs = (r0, r1, r2)
     reqs = [REQS[conc(rs[i], 0, 5)] for i in range(n)]
-    ai = conc(ai, 0, 3)
+    ai = conc(ai, 0, 4)
     kmax = [3, 1, 2, 1000][conc(kmax, 0, 3)]
     cutv = 0
     if seg == 1:
@@ -204,6 +230,7 @@ def h1_pipeline(n: int, r0: int, r1: int, r2: int, seg: int, cut: int, ai: int, 
     log: list = []
     app = PipeApp(APPS[ai], log)
     conn = Conn(app, make_config(keep_alive_max_requests=kmax))
+    app.ctx = conn.ctx
     if seg == 0:
         bounds_ = [len(data)]
     elif seg == 1:
@@ -217,6 +244,9 @@ def h1_pipeline(n: int, r0: int, r1: int, r2: int, seg: int, cut: int, ai: int, 
     for b in bounds_:
         conn.feed(data[pos:b])
         pos = b
+    if app.lingerers:
+        conn.sched.spawn(app.release(), "release")
+        conn.sched.run()
     # ---- reference: how many requests are served, and which response announces the close
     def seg_end(off: int) -> int:  # end of the read that delivers byte number `off` (1-based)
         for b in bounds_:
@@ -298,4 +328,4 @@ def h1_pipeline(n: int, r0: int, r1: int, r2: int, seg: int, cut: int, ai: int, 
             why = f"connection closed by the server but tasks are still parked: {left}"
     if not why and conn.sched.errors:
         why = "exception escaped a task: %r" % (conn.sched.errors[0],)
-    return done(why == "", reqs=[r["target"] for r in reqs], seg=seg, cut=cutv, app=APPS[ai], kmax=kmax, why=why)
+    return why == "", dict(reqs=[r["target"] for r in reqs], seg=seg, cut=cutv, app=APPS[ai], kmax=kmax, why=why)
